@@ -241,18 +241,35 @@ def legend_case(case):
     v = []
     with C.scratch() as root:
         F = root / "F"
-        cfg = {"lineup": [{"cls": c, "bs": case["bs"]} for c in case["lineup"]], "seed": case.get("seed", 0), "dims": 2, "model": "const2", "ensemble": 1, "saving_folder": str(F),
+        cfg = {"lineup": [{"cls": c, "bs": case["bs"]} for c in case["lineup"]], "seed": case.get("seed", 0), "dims": 2, "model": case.get("model", "const2"), "ensemble": 1, "saving_folder": str(F),
                "precision": 0.0001}
+        if case.get("decoys"):
+            # the folder is not empty: back-ups, compressed siblings, the sampler list of a pre-0.3 release, an SQLite checkpoint - all
+            # valid files of ANOTHER run
+            from vf.checks.c04 import _plant_decoys
+
+            other = C.build(dict(cfg, saving_folder=str(root / "donor"), seed=5))   # (_plant_decoys stores its line-up REVERSED as the legacy sampler list)
+            with quiet():
+                other.calibrate(2)
+            _plant_decoys(F, root / "donor", other)
         live = C.build(cfg)
         rec = C.Recorder()
         with rec, quiet():
             live.calibrate(case["batches"])
+        if case.get("decoys"):
+            try:
+                rest = C.restore(F, cfg)
+                if dict(rest.samplers_id_table) != dict(live.samplers_id_table) or [type(s).__name__ for s in rest.scheduler.samplers] != [type(s).__name__ for s in live.scheduler.samplers]:
+                    v.append(("restored-table-differs", f"a run saved into a folder that also holds foreign files restores with the table {dict(rest.samplers_id_table)} / line-up {[type(s).__name__ for s in rest.scheduler.samplers]}; "
+                              f"the calibrator had {dict(live.samplers_id_table)} / {[type(s).__name__ for s in live.scheduler.samplers]}"))
+            except Exception as e:  # noqa: BLE001
+                v.append(("plot-cannot-read-checkpoint", f"restore from a folder that also holds foreign files raised {type(e).__name__}: {e}"))
         inv = {}
         for c, lab in zip([c["cls"] for c in rec.sample_calls for _ in range(len(c["out"]))], np.asarray(live.method_samp).tolist()):
             inv.setdefault(int(lab), c)
         try:
             with quiet():
-                pr.plot_sampling(str(F))
+                (pr.plot_convergence if case.get("plot") == "convergence" else pr.plot_sampling)(str(F))
             leg = plt.gca().get_legend() or (plt.gcf().legends[-1] if plt.gcf().legends else None)
             handles = list(getattr(leg, "legend_handles", None) or getattr(leg, "legendHandles", []))
             texts = [t.get_text() for t in leg.get_texts()]
@@ -260,11 +277,19 @@ def legend_case(case):
             # (no such labels) is not judged
             ids = sorted(inv)
             pairs = []
+            extra = []
             for h, t in zip(handles, texts):
                 lab = str(h.get_label())
+                if case.get("plot") == "convergence" and lab == "min loss":
+                    extra.append(t)
+                    continue
                 pairs.append((int(float(lab)) if lab.replace(".", "", 1).isdigit() else None, t))
-            if len(pairs) != len(ids) or any(i is None or i not in inv for i, _ in pairs):
+            if case.get("plot") == "convergence" and extra != ["min loss"] and not any(i is None for i, _ in pairs):
+                v.append(("legend-names-wrong", f"plot_convergence: the running-minimum curve is labelled {extra}, the sampler entries are {pairs}"))
+            if any(i is None or i not in inv for i, _ in pairs) or (len(pairs) != len(ids) and not (case.get("plot") == "convergence" and len(texts) == len(handles) and len(pairs) < len(ids))):
                 return ["unjudged"]
+            if len(pairs) != len(ids):
+                v.append(("legend-names-wrong", f"the legend names {len(pairs)} of the {len(ids)} sampler ids of the run: {pairs}"))
             else:
                 bad = [(i, t, inv[i]) for i, t in pairs if t != inv[i]]
                 if bad:
@@ -366,6 +391,10 @@ def main(ctx):
                        "known finding id-table-not-persisted is attributed only when a correct implementation of the in-memory table would fail in the same way"]
     lg = [{"lineup": ["Halton", "RandomUniform", "RSequence"], "bs": 2, "batches": 6}, {"lineup": ["RandomUniform", "Halton"], "bs": 3, "batches": 4},
           {"lineup": ["Halton", "RandomUniform", "RSequence"], "bs": 1000, "batches": 6}]
+    nine = ["Halton", "RandomUniform", "RSequence", "BestBatch", "ParticleSwarm", "XGBoost", "RandomForest", "GaussianProcess", "CORS"]
+    lg += [{"lineup": ["Halton", "RandomUniform", "RSequence"], "bs": 2, "batches": 5, "decoys": True}, {"lineup": ["RSequence", "Halton"], "bs": 1, "batches": 3, "decoys": True, "plot": "convergence"},
+           {"lineup": ["Halton", "RandomUniform", "RSequence"], "bs": 2, "batches": 6, "plot": "convergence"}, {"lineup": nine, "bs": 2, "batches": 18, "plot": "convergence", "model": "gauss2"},
+           {"lineup": nine[:8], "bs": 2, "batches": 8, "plot": "convergence", "model": "gauss2"}, {"lineup": nine, "bs": 2, "batches": 9, "plot": "sampling", "model": "gauss2"}]
     if not ctx.quick:
         lg += [{"lineup": ["RSequence", "RandomUniform"], "bs": 2600, "batches": 4}, {"lineup": ["Halton", "RandomUniform", "RSequence"], "bs": 1667, "batches": 3}]
     for c in lg:
